@@ -4,9 +4,11 @@
    (the exact bound under which go/constant re-reads a component as an exact fraction); floatVal with an odd mantissa
    of at most 512 bits and an int32 exponent.  same_value = equality of the exact denotations (Float: the fraction in
    lowest terms), because Unmarshal may return the other go/constant representation of the same number. *)
-From Coq Require Import List NArith ZArith Bool.
+From Coq Require Import List NArith ZArith Bool String.
 From Verif Require Import Common.GoStr C32.Model C32.Proof.
 Import ListNotations.
+Open Scope string_scope.
+Open Scope list_scope.
 Open Scope Z_scope.
 
 (* decimal printing (strconv / big.Int.String, modelled by digit recursion) and MakeFromLiteral(INT) are inverse, all Z *)
